@@ -260,6 +260,22 @@ def check_c05(spec, obs):
                 if not _close(obs[name][l], val):
                     out.append((f"mlmc_results.{name} is not the stated function of the simulated samples",
                                 {"level": l, "reported": obs[name][l], "from_samples": float(val)}))
+    # vector payoff: the price of EVERY component is asked for; the code reports component 0 only (F-C05-5)
+    dim = spec.get("dim", 1)
+    if dim > 1 and all(Nl[l] == draws[l] for l in range(min(len(Nl), obs["n_stat_levels"]))):
+        comp = []
+        for j in range(dim):
+            t = Fraction(0)
+            for l in range(min(len(Nl), obs["n_stat_levels"])):
+                wj = [expected_row(spec, l, n, j) for n in range(draws[l])]
+                if wj:
+                    t += _mean([f - c for f, c in wj])
+            comp.append(t)
+        reported = np.atleast_1d(np.asarray(obs["st"].price(no_control_variates=True), dtype=float))
+        if len(reported) != dim or any(not _close(float(reported[j]), comp[j]) for j in range(dim)):
+            out.append(("vector payoff: price() / ml / vl report payoff component 0 only, the other components are dropped",
+                        {"finding": "F-C05-5", "payoff_dim": dim, "reported_price": [float(v) for v in reported],
+                         "per_component_estimators": [float(v) for v in comp]}))
     if not _close(obs["price_nocv"], total):
         out.append(("price() is not the sum over levels of the mean of (fine - coarse) over the simulated samples",
                     {"reported": obs["price_nocv"], "from_samples": float(total)}))
